@@ -303,6 +303,11 @@ func verif_Muxer_handle(v *Muxer, c net.Conn) {
 	if verif.Recovered() {
 		verif.Ensures(verif.Called("net.Conn).Close"), "failed_hand_over_closes_connection")
 	}
+	// C11 "never orphaned": a connection whose credentials were refused has been
+	// answered, is handed to nobody, and is closed
+	if verif.Called(evMuxAuth) && (!verif.RetBool(evMuxAuth, 0) || verif.RetErr(evMuxAuth, 1) != nil) {
+		verif.Ensures(verif.Called("net.Conn).Close") && !verif.Called("send"), "refused_credentials_close_the_connection")
+	}
 }
 
 // Listener.Close removes exactly the listener's own route triple.
@@ -526,7 +531,7 @@ func verif_Rewrite(r *httputil.ProxyRequest) {
 // an arbitrary configured header).
 //
 //verif:contract ~/pkg/util/vhost.NewHTTPReverseProxy$1
-//verif:props C02
+//verif:props C02 C07
 //verif:kinds post,loop,pre
 func verif_Rewrite_preserves(r *httputil.ProxyRequest) {
 	verif.Requires(r.Out.Header != nil && r.In.Header != nil && r.Out.URL != nil, "requests_have_header_maps")
